@@ -39,6 +39,8 @@ structure ISt where
   /-- connections whose reply does not fit the socket buffers: the goroutine is blocked in Write -/
   wblocked : List Nat := []
   acceptHeld : Bool := false
+  /-- connections whose close callback the scenario holds -/
+  cbHeld : List Nat := []
   /-- connection -> request in flight -/
   pending : List (Nat × Nat) := []
   dialFailed : List Nat := []
@@ -51,6 +53,7 @@ def connHeld (i : ISt) (c : Nat) : Bool :=
   | .handling _ _ => i.blocked.contains c
   | .gotRequest _ _ => i.traced.contains c
   | .writing _ => i.wblocked.contains c
+  | .cleanupCb => i.cbHeld.contains c
   | _ => false
 
 /-- run the accept loop until it blocks (empty backlog, held callback, mutex taken) or returns -/
@@ -164,6 +167,16 @@ def interpStep (op : SrvOp) (i : ISt) (st : String) : ISt × String :=
     if noClient i k then (i, "nc") else
     let i := quiesce cfg { i with s := step cfg i.s (.clientClose k) }
     (i, "ok")
+  | "dh" =>
+    -- the client disconnects; the close callback of its connection (if one is set) is held inside the callback
+    if noClient i k then (i, "nc") else
+    if !cfg.onClose then
+      (quiesce cfg { i with s := step cfg i.s (.clientClose k) }, "ok")
+    else
+      let i := quiesce cfg { i with s := step cfg i.s (.clientClose k), cbHeld := k :: i.cbHeld }
+      (i, if (i.s.conns k).pc == .cleanupCb then "hc" else "to")
+  | "rc" =>
+    (quiesce cfg { i with cbHeld := i.cbHeld.erase k }, "ok")
   | "g" =>
     -- the client sends the first 7 bytes of a request and nothing else: no complete request ever arrives
     if noClient i k then (i, "nc") else (i, "ok")
@@ -297,7 +310,7 @@ def judgeC17 (op : SrvOp) (out : String) : Expect :=
           else if o == "z" then
             if !(b.shutdownCalled || b.cancelled) then b.fail "accepted connection closed by a serving server" else b
           else b
-      | "q" =>
+      | "q" | "h" =>
         if b.limbo.contains k then b else
         if b.live.contains k && !b.busy.contains k && o != s!"r{id}" then b.fail s!"step {st}: no reply on a live connection ({o})" else
         if !b.live.contains k && o.startsWith "r" then b.fail s!"step {st}: reply on a connection that should be closed" else b
@@ -328,7 +341,8 @@ def judgeC17 (op : SrvOp) (out : String) : Expect :=
           if b.live.contains k then { b with live := if b.cancelled then b.live.erase k else b.live }
           else b.fail s!"step {st}: reply on a connection that should be closed"
         else b
-      | "d" => { b with live := b.live.erase k, busy := b.busy.erase k }
+      | "d" | "dh" => { b with live := b.live.erase k, busy := b.busy.erase k }
+      | "xh" => { b with cancelled := true, live := b.live.filter fun c => b.busy.contains c || b.traced.contains c }
       | "sh" | "shx" =>
         -- the first sweep closes every connection that is not handling a request
         { b with shutdownAgain := b.shutdownCalled, shutdownCalled := true, shutdownPending := true,
